@@ -354,7 +354,11 @@ def predicate_enum(c, out):
             if i not in gotd:
                 return "device %d is a well-formed U3V camera but was left out" % i
             if gotd[i] != e:
-                return "device %d: decoded %r, the descriptors say %r" % (i, _clip(gotd[i], 60), _clip(e, 60))
+                g = gotd[i]
+                k = next((j for j in range(min(len(g), len(e))) if g[j] != e[j]), min(len(g), len(e)))
+                return ("device %d: the decoded record differs from what the descriptors say at field position %d "
+                        "(versions 0..5, strings, speed, control iface/in/out, event, stream): decoded ..%r, "
+                        "descriptors ..%r" % (i, k, _clip(g[max(0, k - 3):k + 8], 12), _clip(e[max(0, k - 3):k + 8], 12)))
     for p in pos:
         if p >= len(devs):
             return "a device that is not in the list was reported"
@@ -1179,7 +1183,57 @@ def _run(ck, cases, imports, predicate, nontrivial, label):
             ck.trusted.append(t)
 
 
+def run_ctlreal(ck, cases, shim_out, predicate, nontrivial=None, label="control path end to end"):
+    """The `ctl` cases of a control-handle check (their lines and the outputs of rust/h_u3v = /repo/cameleon compiled
+    against the fake channels of rust/shim) run once more on the REAL stack -- the real cameleon crate over the real
+    cameleon-device crate, real rusb and the scripted fake libusb, the simulated device of rust/shim behind the bulk
+    endpoints (rust/h_usbctl) -- and compared line by line; the property's own predicate is evaluated on the output
+    of the real stack."""
+    binary, log = ck.cargo_build("h_usbctl")
+    if binary is None:
+        path = ck.write_replay({"kind": "build", "property": ck.pid, "unchecked": "correspondence via rust/h_usbctl",
+                                "log": log[-6000:]})
+        ck.violations.append((path, True, "harness rust/h_usbctl (real cameleon + cameleon-device over the fake libusb) "
+                                          "does not build against the repository"))
+        return
+    if RULE_E2E not in ck.rule:
+        ck.rule += RULE_E2E
+    ix = [i for i, c in enumerate(cases) if c.kind == "ctl"]
+    real = ck.run_impl(binary, [cases[i].line for i in ix], jobs=8, big_stack=True, timeout=300)
+    ck.phase(label)
+    ck.compare([cases[i] for i in ix], real, [shim_out[i] for i in ix], predicate, nontrivial,
+               family="%s: real cameleon + cameleon-device + rusb over the fake libusb vs the shim stack" % label,
+               correspondence="rust/h_usbctl (real USB layer) vs rust/h_u3v (rust/shim + rust/cut), line by line")
+    t = ("rust/h_usbctl: the device side of rust/shim (u3v::sim::World) behind the bulk endpoints of the fake libusb; "
+         "the channels, Device and enumeration of cameleon-device and the cameleon crate itself are the repository's")
+    if t not in ck.trusted:
+        ck.trusted.append(t)
+
+
+RULE_ENUM = (" || USB enumeration (tools/usbenum.py): the REAL cameleon_device::u3v::enumerate_devices over real rusb and a scripted "
+             "fake libusb (rust/h_usb) vs model/UsbEnum.v on the same device lists; boundary family first (an IAD cut at every "
+             "position at the end of the configuration / interface / endpoint extra bytes after five prefixes, every bLength of "
+             "the IAD and of a leading descriptor, one-byte descriptors, two IADs, every cut and bLength of the device info "
+             "descriptor, type / subtype, all 256 speed masks, index 0 and a failing / absent / non-UTF-8 string at each of the 8 "
+             "positions, 15 control endpoint shapes, every sequence of up to 3 receive-like interfaces over 10 kinds, "
+             "configurations (count, order, unreadable, active value incl. truncation to u8), 15 libusb codes at "
+             "get_device_descriptor / get_config_descriptor / open / get_configuration / set_configuration / get_device_list, "
+             "lists mixing cameras with hostile and foreign devices), then structured random composite devices, damaged ones, "
+             "lists, random bytes everywhere; predicate = independent Python decision and decoding written from the USB 3.x "
+             "IAD and USB3 Vision device info layouts (no panic, exactly the accepted devices in order with exactly the decoded "
+             "fields, foreign devices never opened, handles balanced)")
+RULE_CHAN = (" || USB channels (tools/usbenum.py): ControlChannel / ReceiveChannel of the REAL crate over the scripted fake libusb "
+             "(rust/h_usb) vs model/UsbChannel.v: boundary histories (15 libusb codes at claim / release / bulk / halt / clear / "
+             "open, transferred counts with errors, buffer sizes, timeouts beyond 32 bits, closed-channel operations, drop while "
+             "open) and random histories over random enumerated devices; predicate = independent Python statement of the channel "
+             "contract (which libusb call with which interface / endpoint / length / timeout, result unchanged, flag after errors)")
+RULE_E2E = (" || end to end: every ctl case of this check is run a second time on the real cameleon crate + real cameleon-device "
+            "+ rusb over the fake libusb with the simulated device of rust/shim behind the bulk endpoints (rust/h_usbctl); output "
+            "must equal that of the shim stack line by line, the property's predicate is evaluated on it")
+
+
 def run_enum(ck):
+    ck.rule += RULE_ENUM
     cases = gen_enum_cases(ck)
     _run(ck, cases, ["UsbEnum"], predicate_enum, nontrivial_enum, "usb enumeration")
     exp = {}
@@ -1192,6 +1246,7 @@ def run_enum(ck):
 
 
 def run_chan(ck):
+    ck.rule += RULE_CHAN
     cases = gen_chan_cases(ck)
     _run(ck, cases, ["UsbChannel"], predicate_chan, nontrivial_chan, "usb channels")
     ops = {}
@@ -1264,6 +1319,21 @@ def parse_case(line):
 
 def replay(ck, r):
     """--replay of a stored usb case: the real code, the model and the predicate verdict on exactly that case"""
+    if r.get("ckind") == "ctl":
+        # an end-to-end case: the real stack (rust/h_usbctl) against the shim stack (rust/h_u3v) on exactly this line
+        b_real, _ = ck.cargo_build("h_usbctl")
+        b_shim, _ = ck.cargo_build("h_u3v")
+        if b_real is None or b_shim is None:
+            print("a harness does not build")
+            sys.exit(1)
+        real = ck.run_impl(b_real, [r["case"]], big_stack=True)[0]
+        shim = ck.run_impl(b_shim, [r["case"]], big_stack=True)[0]
+        print("case      :", r["case"][:3000])
+        print("real stack:", _clip(real, 300))
+        print("shim stack:", _clip(shim, 300))
+        print("agree     :", real == shim)
+        print("predicate failure (stored):", r.get("predicate_failure"))
+        sys.exit(0 if real == shim else 1)
     c = parse_case(r["case"])
     assert c.line == r["case"], "the stored case does not re-render to itself"
     binary = build(ck)
